@@ -59,6 +59,17 @@ def screen_init(eng, st, margins='either'):
                             length=_num(eng, st, 'usize', 0, 2**40, 'S.savepoints.len')),
     })
     st.store[S_ROOT] = scr
+    # handles on the entry values, for rules that relate exit state to entry state
+    st.vn[('entry', 'columns')] = columns
+    st.vn[('entry', 'lines')] = lines
+    st.vn[('entry', 'x')] = x
+    st.vn[('entry', 'y')] = y
+    m = scr.fields['margins']
+    if 1 in m.tags:
+        mm = m.payload[1].fields['0']
+        st.vn[('entry', 'top')] = mm.fields['top']
+        st.vn[('entry', 'bottom')] = mm.fields['bottom']
+    st.vn[('entry', 'margins')] = margins
     return scr
 
 
